@@ -31,11 +31,30 @@ type vrfHost struct {
 	host.Host
 	id peer.ID
 	ps *vrfPstore
+	cm *vrfConnMgr
 }
 
 func (h *vrfHost) ID() peer.ID                     { return h.id }
 func (h *vrfHost) Peerstore() peerstore.Peerstore  { return h.ps }
-func (h *vrfHost) ConnManager() connmgr.ConnManager { return nil }
+func (h *vrfHost) ConnManager() connmgr.ConnManager {
+	if h.cm == nil {
+		return nil
+	}
+	return h.cm
+}
+
+// vrfConnMgr: the host's connection manager. Other subsystems (pubsub mesh,
+// DHT) protect peers under their own tags, so whether a peer stays protected
+// after Unprotect is the environment's answer, not the consensus component's.
+type vrfConnMgr struct {
+	connmgr.ConnManager
+}
+
+func (c *vrfConnMgr) Protect(peer.ID, string)             {}
+func (c *vrfConnMgr) Unprotect(peer.ID, string) bool      { return vrf_nondet_bool("still_protected_under_another_tag") }
+func (c *vrfConnMgr) IsProtected(peer.ID, string) bool    { return vrf_nondet_bool("is_protected") }
+func (c *vrfConnMgr) TagPeer(peer.ID, string, int)        {}
+func (c *vrfConnMgr) UntagPeer(peer.ID, string)           {}
 
 var vrfTrustPeers = []peer.ID{"self", "pA", "pB", "pC"}
 
@@ -43,6 +62,9 @@ var vrfTrustPeers = []peer.ID{"self", "pA", "pB", "pC"}
 // trust-all) and later Trust/Distrust calls.
 func VrfC07Trust() {
 	h := &vrfHost{id: vrfTrustPeers[0], ps: &vrfPstore{}}
+	if vrf_choice("has_connection_manager", 2) == 1 {
+		h.cm = &vrfConnMgr{}
+	}
 	cfg := &Config{}
 	cfg.TrustAll = vrf_nondet_bool("trust_all")
 	css := &Consensus{ctx: context.Background(), config: cfg, host: h, peerManager: pstoremgr.New(context.Background(), h, "")}
